@@ -727,6 +727,9 @@ def oracle(c, stats):
         # azimuths are not part of gama's convergence test); two noise-level values are not compared
         if max(x0["summary"]["sum_of_squares"], x1["summary"]["sum_of_squares"]) < 1e-3:
             fl = [f_ for f_ in fl if not f_.startswith("equiv.sum_of_squares")]
+            if net0["params"].get("sigma-act", "aposteriori") == "aposteriori":
+                # ... and neither are the standard deviations scaled by the a posteriori m0 made of them
+                fl = [f_ for f_ in fl if not f_.startswith("equiv.obs_stdev")]
         fails += fl
     return fails
 
